@@ -209,8 +209,12 @@ func (g *GGraph) CheckInstalled(ts []*core.BuildTarget) error {
 	}
 	for i, t := range ts {
 		var got []int
-		for _, d := range t.Dependencies() {
-			got = append(got, idx[d.Label])
+		dup := map[int]bool{}
+		for _, d := range t.Dependencies() { // core lists a target twice when two declarations resolve to it
+			if j := idx[d.Label]; !dup[j] {
+				dup[j] = true
+				got = append(got, j)
+			}
 		}
 		sort.Ints(got)
 		if want := g.Resolved(i); fmt.Sprint(got) != fmt.Sprint(want) {
@@ -271,7 +275,7 @@ func GenGGraph(t *rapid.T, o GGraphOpts) GGraph {
 			k := rapid.IntRange(0, maxExt).Draw(t, "extDeps")
 			for e := 0; e < k; e++ {
 				if d, ok := pickEarlier(first); ok {
-					tg.Deps = appendUnique(tg.Deps, d)
+					tg.Deps = ggAppendUnique(tg.Deps, d)
 				}
 			}
 		}
@@ -280,7 +284,7 @@ func GenGGraph(t *rapid.T, o GGraphOpts) GGraph {
 			tg := GTarget{Pkg: pkg, Name: "_" + name + "#" + ggTags[h]}
 			for _, c := range children { // sub-targets of one rule often chain
 				if rapid.IntRange(0, 1).Draw(t, "chain") == 0 {
-					tg.Deps = appendUnique(tg.Deps, c)
+					tg.Deps = ggAppendUnique(tg.Deps, c)
 				}
 			}
 			addDeps(&tg, 2)
@@ -288,7 +292,7 @@ func GenGGraph(t *rapid.T, o GGraphOpts) GGraph {
 				tg.Requires = []string{ggLangs[rapid.IntRange(0, 1).Draw(t, "lang")]}
 			}
 			if o.Kinds {
-				drawSrcs(t, &tg, srcPool)
+				ggDrawSrcs(t, &tg, srcPool)
 			}
 			children = append(children, len(g.Targets))
 			g.Targets = append(g.Targets, tg)
@@ -296,7 +300,7 @@ func GenGGraph(t *rapid.T, o GGraphOpts) GGraph {
 		tg := GTarget{Pkg: pkg, Name: name}
 		for _, c := range children {
 			if rapid.IntRange(0, 4).Draw(t, "own") > 0 {
-				tg.Deps = appendUnique(tg.Deps, c)
+				tg.Deps = ggAppendUnique(tg.Deps, c)
 			}
 		}
 		addDeps(&tg, 3)
@@ -326,7 +330,7 @@ func GenGGraph(t *rapid.T, o GGraphOpts) GGraph {
 			if rapid.IntRange(0, 5).Draw(t, "label") == 0 {
 				tg.Labels = append(tg.Labels, rapid.SampledFrom([]string{"keep", "manual", "lib"}).Draw(t, "lbl"))
 			}
-			drawSrcs(t, &tg, srcPool)
+			ggDrawSrcs(t, &tg, srcPool)
 			// hidden children of a test rule are commonly test_only as well
 			if tg.Test || tg.TestOnly {
 				for _, c := range children {
@@ -354,16 +358,16 @@ func GenGGraph(t *rapid.T, o GGraphOpts) GGraph {
 		w := g.Targets[v].Deps[rapid.IntRange(0, len(g.Targets[v].Deps)-1).Draw(t, "w")]
 		// never make a hidden target depend on its own visible parent, nor a rule on another rule's
 		// internals it did not already reach
-		g.Targets[u].Deps = appendUnique(g.Targets[u].Deps, w)
+		g.Targets[u].Deps = ggAppendUnique(g.Targets[u].Deps, w)
 	}
 	if o.Subincludes && rapid.IntRange(0, 2).Draw(t, "subinc") == 0 {
-		pkg := ggPkgs[rapid.IntRange(0, nPkgs-1).Draw(t, "subincPkg")]
+		pkg := g.Targets[rapid.IntRange(0, len(g.Targets)-1).Draw(t, "subincPkg")].Pkg
 		g.Subincludes = map[string][]int{pkg: {visible[rapid.IntRange(0, len(visible)-1).Draw(t, "subincT")]}}
 	}
 	return g
 }
 
-func drawSrcs(t *rapid.T, tg *GTarget, pool []string) {
+func ggDrawSrcs(t *rapid.T, tg *GTarget, pool []string) {
 	k := rapid.IntRange(0, 2).Draw(t, "nsrcs")
 	for i := 0; i < k; i++ {
 		s := pool[rapid.IntRange(0, len(pool)-1).Draw(t, "src")]
@@ -377,7 +381,7 @@ func drawSrcs(t *rapid.T, tg *GTarget, pool []string) {
 	}
 }
 
-func appendUnique(s []int, v int) []int {
+func ggAppendUnique(s []int, v int) []int {
 	for _, x := range s {
 		if x == v {
 			return s
